@@ -82,7 +82,7 @@ func constValue(c *ssa.Const) value {
 		}
 	}
 
-	panic(fmt.Sprintf("constValue: %s", c))
+	panic(engineFault(fmt.Sprintf("constValue: %s", c)))
 }
 
 // fitsInt returns true if x fits in type int according to sizes.
@@ -124,7 +124,7 @@ func asInt64(x value) int64 {
 	case uintptr:
 		return int64(x)
 	}
-	panic(fmt.Sprintf("cannot convert %T to int64", x))
+	panic(engineFault(fmt.Sprintf("cannot convert %T to int64", x)))
 }
 
 // asUint64 converts x, which must be an unsigned integer, to a uint64
@@ -144,7 +144,7 @@ func asUint64(x value) uint64 {
 	case uintptr:
 		return uint64(x)
 	}
-	panic(fmt.Sprintf("cannot convert %T to uint64", x))
+	panic(engineFault(fmt.Sprintf("cannot convert %T to uint64", x)))
 }
 
 // asUnsigned returns the value of x, which must be an integer type, as its equivalent unsigned type,
@@ -164,7 +164,7 @@ func asUnsigned(x value) (value, bool) {
 	case uint, uint8, uint32, uint64, uintptr:
 		return x, true
 	}
-	panic(fmt.Sprintf("cannot convert %T to unsigned", x))
+	panic(engineFault(fmt.Sprintf("cannot convert %T to unsigned", x)))
 }
 
 // zero returns a new "zero" value of the specified type.
@@ -172,7 +172,7 @@ func zero(t types.Type) value {
 	switch t := t.(type) {
 	case *types.Basic:
 		if t.Kind() == types.UntypedNil {
-			panic("untyped nil has no zero value")
+			panic(engineFault("untyped nil has no zero value"))
 		}
 		if t.Info()&types.IsUntyped != 0 {
 			// TODO(adonovan): make it an invariant that
@@ -219,7 +219,7 @@ func zero(t types.Type) value {
 		case types.UnsafePointer:
 			return unsafe.Pointer(nil)
 		default:
-			panic(fmt.Sprint("zero for unexpected type:", t))
+			panic(engineFault(fmt.Sprint("zero for unexpected type:", t)))
 		}
 	case *types.Pointer:
 		return (*value)(nil)
@@ -262,7 +262,7 @@ func zero(t types.Type) value {
 	case *types.Signature:
 		return (*ssa.Function)(nil)
 	}
-	panic(fmt.Sprint("zero: unexpected ", t))
+	panic(engineFault(fmt.Sprint("zero: unexpected ", t)))
 }
 
 // slice returns x[lo:hi:max].  Any of lo, hi and max may be nil.
@@ -304,7 +304,7 @@ func slice(x, lo, hi, max value) value {
 		a := (*x).(array)
 		return []value(a)[l:h:m]
 	}
-	panic(fmt.Sprintf("slice: unexpected X type: %T", x))
+	panic(engineFault(fmt.Sprintf("slice: unexpected X type: %T", x)))
 }
 
 // lookup returns x[idx] where x is a map.
@@ -599,7 +599,7 @@ func binop(op token.Token, t types.Type, x, y value) value {
 	case token.SHL:
 		u, ok := asUnsigned(y)
 		if !ok {
-			panic("negative shift amount")
+			panic(engineFault("negative shift amount"))
 		}
 		y := asUint64(u)
 		switch x.(type) {
@@ -630,7 +630,7 @@ func binop(op token.Token, t types.Type, x, y value) value {
 	case token.SHR:
 		u, ok := asUnsigned(y)
 		if !ok {
-			panic("negative shift amount")
+			panic(engineFault("negative shift amount"))
 		}
 		y := asUint64(u)
 		switch x.(type) {
@@ -792,7 +792,7 @@ func binop(op token.Token, t types.Type, x, y value) value {
 			return x.(string) >= y.(string)
 		}
 	}
-	panic(fmt.Sprintf("invalid binary op: %T %s %T", x, op, y))
+	panic(engineFault(fmt.Sprintf("invalid binary op: %T %s %T", x, op, y)))
 }
 
 // eqnil returns the comparison x == y using the equivalence relation
@@ -819,7 +819,7 @@ func eqnil(t types.Type, x, y value) bool {
 		case []value:
 			return (x != nil) == (y.([]value) != nil)
 		}
-		panic(fmt.Sprintf("eqnil(%s): illegal dynamic type: %T", t, x))
+		panic(engineFault(fmt.Sprintf("eqnil(%s): illegal dynamic type: %T", t, x)))
 	}
 
 	return equals(t, x, y)
@@ -899,7 +899,7 @@ func unop(instr *ssa.UnOp, x value) value {
 			return ^x
 		}
 	}
-	panic(fmt.Sprintf("invalid unary op %s %T", instr.Op, x))
+	panic(engineFault(fmt.Sprintf("invalid unary op %s %T", instr.Op, x)))
 }
 
 // typeAssert checks whether dynamic type of itf is instr.AssertedType.
@@ -953,13 +953,13 @@ func callBuiltin(caller *frame, callpos token.Pos, fn *ssa.Builtin, args []value
 			if caller.i.mon != nil {
 				caller.i.mon.onAppend(caller, arg0, strLen(args[1]))
 			}
-			return append(arg0, strBytes(args[1])...)
+			return appendVals(types.Typ[types.Uint8], arg0, strBytes(args[1]))
 		}
 		// append([]T, ...[]T) []T
 		if caller.i.mon != nil {
 			caller.i.mon.onAppend(caller, args[0].([]value), len(args[1].([]value)))
 		}
-		return append(args[0].([]value), args[1].([]value)...)
+		return appendVals(fn.Type().(*types.Signature).Params().At(0).Type().Underlying().(*types.Slice).Elem(), args[0].([]value), args[1].([]value))
 
 	case "copy": // copy([]T, []T) int or copy([]byte, string) int
 		src := args[1]
@@ -1019,7 +1019,7 @@ func callBuiltin(caller *frame, callpos token.Pos, fn *ssa.Builtin, args []value
 		case chan value:
 			return len(x)
 		default:
-			panic(fmt.Sprintf("len: illegal operand: %T", x))
+			panic(engineFault(fmt.Sprintf("len: illegal operand: %T", x)))
 		}
 
 	case "cap":
@@ -1033,7 +1033,7 @@ func callBuiltin(caller *frame, callpos token.Pos, fn *ssa.Builtin, args []value
 		case chan value:
 			return cap(x)
 		default:
-			panic(fmt.Sprintf("cap: illegal operand: %T", x))
+			panic(engineFault(fmt.Sprintf("cap: illegal operand: %T", x)))
 		}
 
 	case "min":
@@ -1048,7 +1048,7 @@ func callBuiltin(caller *frame, callpos token.Pos, fn *ssa.Builtin, args []value
 		case complex128:
 			return real(c)
 		default:
-			panic(fmt.Sprintf("real: illegal operand: %T", c))
+			panic(engineFault(fmt.Sprintf("real: illegal operand: %T", c)))
 		}
 
 	case "imag":
@@ -1058,7 +1058,7 @@ func callBuiltin(caller *frame, callpos token.Pos, fn *ssa.Builtin, args []value
 		case complex128:
 			return imag(c)
 		default:
-			panic(fmt.Sprintf("imag: illegal operand: %T", c))
+			panic(engineFault(fmt.Sprintf("imag: illegal operand: %T", c)))
 		}
 
 	case "complex":
@@ -1068,7 +1068,7 @@ func callBuiltin(caller *frame, callpos token.Pos, fn *ssa.Builtin, args []value
 		case float64:
 			return complex(f, args[1].(float64))
 		default:
-			panic(fmt.Sprintf("complex: illegal operand: %T", f))
+			panic(engineFault(fmt.Sprintf("complex: illegal operand: %T", f)))
 		}
 
 	case "panic":
@@ -1084,8 +1084,8 @@ func callBuiltin(caller *frame, callpos token.Pos, fn *ssa.Builtin, args []value
 		if recv.(*value) == nil {
 			recvType := args[1]
 			methodName := args[2]
-			panic(fmt.Sprintf("value method (%s).%s called using nil *%s pointer",
-				recvType, methodName, recvType))
+			panic(runtimePanic(caller.i, fmt.Sprintf("value method (%s).%s called using nil *%s pointer",
+				recvType, methodName, recvType)))
 		}
 		return recv
 
@@ -1140,7 +1140,7 @@ func widen(x value) value {
 	case complex64:
 		return complex128(y)
 	}
-	panic(fmt.Sprintf("cannot widen %T", x))
+	panic(engineFault(fmt.Sprintf("cannot widen %T", x)))
 }
 
 // conv converts the value x of type t_src to type t_dst and returns
@@ -1158,9 +1158,9 @@ func conv(t_dst, t_src types.Type, x value) value {
 	// Nor is it an interface type.
 	if _, ok := ut_dst.(*types.Interface); ok {
 		if _, ok := ut_src.(*types.Interface); ok {
-			panic("oops: Convert should be ChangeInterface")
+			panic(engineFault("oops: Convert should be ChangeInterface"))
 		} else {
-			panic("oops: Convert should be MakeInterface")
+			panic(engineFault("oops: Convert should be MakeInterface"))
 		}
 	}
 
@@ -1370,7 +1370,7 @@ func conv(t_dst, t_src types.Type, x value) value {
 		}
 	}
 
-	panic(fmt.Sprintf("unsupported conversion: %s  -> %s, dynamic type %T", t_src, t_dst, x))
+	panic(engineFault(fmt.Sprintf("unsupported conversion: %s  -> %s, dynamic type %T", t_src, t_dst, x)))
 }
 
 // sliceToArrayPointer converts the value x of type slice to type t_dst
@@ -1381,7 +1381,7 @@ func sliceToArrayPointer(t_dst, t_src types.Type, x value) value {
 			if arr, ok := ptr.Elem().Underlying().(*types.Array); ok {
 				x := x.([]value)
 				if arr.Len() > int64(len(x)) {
-					panic("array length is greater than slice length")
+					panic(engineFault("array length is greater than slice length"))
 				}
 				if x == nil {
 					return zero(t_dst)
@@ -1392,7 +1392,7 @@ func sliceToArrayPointer(t_dst, t_src types.Type, x value) value {
 		}
 	}
 
-	panic(fmt.Sprintf("unsupported conversion: %s  -> %s, dynamic type %T", t_src, t_dst, x))
+	panic(engineFault(fmt.Sprintf("unsupported conversion: %s  -> %s, dynamic type %T", t_src, t_dst, x)))
 }
 
 // checkInterface checks that the method set of x implements the
